@@ -48,7 +48,9 @@ def is_expr_cst(lifter, expr):
     elements = expr.get_r(mem_read=True)
     for element in elements:
         if element.is_mem():
-            continue
+            # The memory may be written between the evaluation of the
+            # expression and the place it is propagated to
+            return False
         if element.is_id() and element in lifter.arch.regs.all_regs_ids_init:
             continue
         if element.is_int():
